@@ -76,6 +76,26 @@ Theorem C12_size : forall H k,
 Proof. exact size_attr. Qed.
 Print Assumptions C12_size.
 
+(* the description of a PGP key: attributes of the first key packet of the stream, then the
+   identities sorted by name, then the subkeys in packet order *)
+Theorem C12_description_shape : forall c P private stream i,
+  pgp_key c P private stream = Ok i ->
+  exists e, read_entity c P (events_of c P stream) = Ok e /\
+    first_key (events_of c P stream) = Some (e_primary e) /\
+    i_desc i = (if private then bs "GPG/PGP private key" else bs "GPG/PGP public key") /\
+    i_attrs i = describe_key (p_H P) (e_primary e) /\
+    i_children i = map (identity_info c (e_primary e)) (sort_ids (e_ids e)) ++ map (subkey_info c (p_H P)) (e_subkeys e).
+Proof. exact description_shape. Qed.
+Print Assumptions C12_description_shape.
+
+(* a hashed key-flags subpacket with first octet f contributes exactly the defined bits of f *)
+Theorem C12_flags_subpacket : forall emb st f more rest, 2 + lenN more < 192 ->
+  parse_subpacket emb true st ((2 + lenN more) :: 27 :: f :: more ++ rest) =
+    Ok (mkspst (sp_created st) (sp_keylife st) (sp_issuer st) true
+               (N.lor (sp_flags st) (N.land f known_flag_bits)) (sp_emb st), rest).
+Proof. exact flags_subpacket. Qed.
+Print Assumptions C12_flags_subpacket.
+
 (* usage: all 2^8 values of the key-flags octet (finite, by computation) *)
 Theorem C12_usage : forall f, f < 256 -> usage_string (flags_of_octet f) = spec_usage f.
 Proof. exact usage_exact. Qed.
